@@ -634,7 +634,7 @@ def op_external_unknown_list(form, r):
 
 
 def op_bad_trigger(form, r):
-    kind = r.choice(["not-a-ref", "missing", "hidden-source", "bg-no-trigger", "bg-with-calc"])
+    kind = r.choice(["not-a-ref", "missing", "hidden-source", "bg-no-trigger", "bg-with-calc", "several-refs", "several-refs"])
     vis = [n for n, _ in _questions(form, lambda n: base_type(n["c"].get("type")) in VISIBLE_SIMPLE and "name" in n["c"]
                                and any(k.split("::")[0] == "label" for k in n["c"]) and "calculation" not in n["c"])]
     tok = f"{TOK}_t"
@@ -650,6 +650,13 @@ def op_bad_trigger(form, r):
         form["nodes"].append({"k": "q", "c": {"type": "calculate", "name": tok, "calculation": "1"}})
         node["c"]["trigger"] = "${%s}" % tok
         toks = [tok]
+    elif kind == "several-refs":
+        # only one triggering question is supported: a list of references must not silently lose the calculation
+        if len(vis) < 2:
+            return None
+        a, b = r.sample(vis, 2)
+        node["c"]["trigger"] = "${%s}%s${%s}" % (a["c"]["name"], r.choice([", ", ",", " ", " or "]), b["c"]["name"])
+        toks = ["trigger"]
     elif kind == "bg-no-trigger":
         node["c"] = {"type": "background-geopoint", "name": f"{TOK}tq"}
         toks = ["background-geopoint", "trigger"]
@@ -660,7 +667,7 @@ def op_bad_trigger(form, r):
         toks = ["background-geopoint", "calculation"]
     form["nodes"].append(node)
     row = rows_of(form)[id(node)][0]
-    return Plan(form, tokens=toks, row=row if kind.startswith("bg") or kind == "not-a-ref" else None, stable=False, note=kind)
+    return Plan(form, tokens=toks, row=row if kind.startswith("bg") else None, stable=False, note=kind)
 
 
 def op_search_misuse(form, r):
